@@ -1,8 +1,8 @@
 (* C11: the cue-text tokenizer inverts the token printer, for ALL token lists in normal form.
    print_tokens is the WebVTT cue-text syntax of a token list: text with & < > escaped, <tag.class… annotation>,
    </tag>, <timestamp>.  Normal form = what the syntax can express uniquely: non-empty strings, no two adjacent
-   strings, tag names / classes / annotations free of their delimiters, annotations white-space-normalised
-   and free of `&` (recorded finding annotation-charref-alias). *)
+   strings, tag names / classes free of their delimiters, annotations white-space-normalised (any characters:
+   `&`, `<` and `>` are printed as character references, which the annotation state decodes since 541c2c8). *)
 From TT Require Import Base.Prelude Gen.VttTables Model.VttTokenizer Spec.VttSpec.
 
 Definition print_classes (cs : list text) : text := flat_map (fun c => 46 :: c) cs.
@@ -11,7 +11,7 @@ Definition print_token (t : token) : text :=
   | TString v => escape v
   | TStart tag cls an =>
     [60] ++ tag ++ match cls with Some cs => print_classes cs | None => [] end ++
-    match an with Some a => 32 :: a | None => [] end ++ [62]
+    match an with Some a => 32 :: escape a | None => [] end ++ [62]
   | TEnd tag => [60; 47] ++ tag ++ [62]
   | TTs ts => [60] ++ ts ++ [62]
   end.
@@ -20,7 +20,6 @@ Definition print_tokens (ts : list token) : text := flat_map print_token ts.
 (* ---- normal form *)
 Definition name_char (c : Z) : Prop := c <> 9 /\ c <> 10 /\ c <> 12 /\ c <> 32 /\ c <> 46 /\ c <> 62.
 Definition first_char (c : Z) : Prop := name_char c /\ c <> 47 /\ is_digit c = false.
-Definition annot_char (c : Z) : Prop := c <> 38 /\ c <> 62.
 Definition class_ok (c : text) : Prop := Forall name_char c.
 
 Definition nf_token (t : token) : Prop :=
@@ -31,7 +30,7 @@ Definition nf_token (t : token) : Prop :=
     match cls, an with
     | None, None => True
     | Some cs, None => cs <> [] /\ Forall class_ok cs
-    | Some cs, Some a => Forall class_ok cs /\ Forall annot_char a /\ norm_annot a = a
+    | Some cs, Some a => Forall class_ok cs /\ norm_annot a = a
     | None, Some _ => False
     end
   | TEnd tag => Forall (fun c => c <> 62) tag
@@ -48,9 +47,9 @@ Fixpoint nf_list (ts : list token) : Prop :=
 (* ---- accumulation lemmas, one per scanner state *)
 Definition lt_or_nil (s : text) : Prop := s = [] \/ exists r, s = 60 :: r.
 
-Lemma unescape_amp : unescape [38;97;109;112] = [38]. Proof. vm_compute. reflexivity. Qed.
-Lemma unescape_lt : unescape [38;108;116] = [60]. Proof. vm_compute. reflexivity. Qed.
-Lemma unescape_gt : unescape [38;103;116] = [62]. Proof. vm_compute. reflexivity. Qed.
+Lemma unescape_amp : unescape [38;97;109;112;59] = [38]. Proof. vm_compute. reflexivity. Qed.
+Lemma unescape_lt : unescape [38;108;116;59] = [60]. Proof. vm_compute. reflexivity. Qed.
+Lemma unescape_gt : unescape [38;103;116;59] = [62]. Proof. vm_compute. reflexivity. Qed.
 
 Lemma app_cons_assoc {A} (l : list A) (x : A) (r : list A) : (l ++ [x]) ++ r = l ++ x :: r.
 Proof. rewrite <- app_assoc. reflexivity. Qed.
@@ -73,15 +72,15 @@ Proof.
     unfold escape. cbn [flat_map]. fold (escape v). unfold escape_char.
     destruct (c =? 38) eqn:E38.
     + apply Z.eqb_eq in E38. subst c. cbn [app scan Z.eqb Pos.eqb].
-      rewrite unescape_amp. cbn [text_eqb Z.eqb Pos.eqb andb].
+      rewrite unescape_amp.
       rewrite IH by assumption. rewrite app_cons_assoc. reflexivity.
     + destruct (c =? 60) eqn:E60.
       * apply Z.eqb_eq in E60. subst c. cbn [app scan Z.eqb Pos.eqb].
-        rewrite unescape_lt. cbn [text_eqb Z.eqb Pos.eqb andb].
+        rewrite unescape_lt.
         rewrite IH by assumption. rewrite app_cons_assoc. reflexivity.
       * destruct (c =? 62) eqn:E62.
         -- apply Z.eqb_eq in E62. subst c. cbn [app scan Z.eqb Pos.eqb].
-           rewrite unescape_gt. cbn [text_eqb Z.eqb Pos.eqb andb].
+           rewrite unescape_gt.
            rewrite IH by assumption. rewrite app_cons_assoc. reflexivity.
         -- cbn [app scan]. rewrite E38, E60.
            rewrite IH by assumption. rewrite app_cons_assoc. reflexivity.
@@ -107,14 +106,23 @@ Proof.
   - inversion H as [|? ? Hc Ht]; subst. destruct (name_char_tests c Hc) as (A & B & D & E).
     cbn [app scan]. rewrite A, B, D, E. rewrite IH by assumption. rewrite app_cons_assoc. reflexivity.
 Qed.
-Lemma scan_annot_acc : forall t res buf cls rest, Forall annot_char t ->
-  scan SAnnot res buf cls (t ++ rest) = scan SAnnot res (buf ++ t) cls rest.
+(* the annotation state on an escaped annotation: every `&`, `<`, `>` comes back through annot_cref *)
+Lemma scan_annot_escape : forall a res buf cls rest,
+  scan SAnnot res buf cls (escape a ++ 62 :: rest) = (TStart res (Some cls) (Some (norm_annot (buf ++ a))), rest).
 Proof.
-  induction t as [|c t IH]; intros res buf cls rest H.
-  - rewrite app_nil_r. reflexivity.
-  - inversion H as [|? ? [Hc1 Hc2] Ht]; subst.
-    cbn [app scan]. replace (c =? 38) with false by lia. replace (c =? 62) with false by lia.
-    rewrite IH by assumption. rewrite app_cons_assoc. reflexivity.
+  induction a as [|c a IH]; intros res buf cls rest.
+  - cbn. rewrite app_nil_r. reflexivity.
+  - unfold escape. cbn [flat_map]. fold (escape a). unfold escape_char.
+    destruct (c =? 38) eqn:E38.
+    + apply Z.eqb_eq in E38. subst c. cbn [app scan Z.eqb Pos.eqb].
+      rewrite unescape_amp. rewrite IH. rewrite app_cons_assoc. reflexivity.
+    + destruct (c =? 60) eqn:E60.
+      * apply Z.eqb_eq in E60. subst c. cbn [app scan Z.eqb Pos.eqb].
+        rewrite unescape_lt. rewrite IH. rewrite app_cons_assoc. reflexivity.
+      * destruct (c =? 62) eqn:E62.
+        -- apply Z.eqb_eq in E62. subst c. cbn [app scan Z.eqb Pos.eqb].
+           rewrite unescape_gt. rewrite IH. rewrite app_cons_assoc. reflexivity.
+        -- cbn [app scan]. rewrite E38, E62. rewrite IH. rewrite app_cons_assoc. reflexivity.
 Qed.
 Lemma scan_end_acc : forall t res buf cls rest, Forall (fun c => c <> 62) t ->
   scan SEnd res buf cls (t ++ rest) = scan SEnd (res ++ t) buf cls rest.
@@ -146,14 +154,14 @@ Proof.
     rewrite scan_class_acc by assumption. cbn [app scan tag_ws Z.eqb Pos.eqb orb].
     rewrite <- app_assoc. rewrite IH by assumption. rewrite <- app_assoc. reflexivity.
 Qed.
-Lemma scan_classes_annot : forall cs c res done a rest, Forall class_ok (c :: cs) -> Forall annot_char a ->
-  scan SClass res [] done (c ++ print_classes cs ++ 32 :: a ++ 62 :: rest)
+Lemma scan_classes_annot : forall cs c res done a rest, Forall class_ok (c :: cs) ->
+  scan SClass res [] done (c ++ print_classes cs ++ 32 :: escape a ++ 62 :: rest)
   = (TStart res (Some (done ++ c :: cs)) (Some (norm_annot a)), rest).
 Proof.
-  induction cs as [|c' cs IH]; intros c res done a rest H Ha; inversion H as [|? ? Hc Hcs]; subst.
+  induction cs as [|c' cs IH]; intros c res done a rest H; inversion H as [|? ? Hc Hcs]; subst.
   - cbn [print_classes flat_map app]. rewrite scan_class_acc by assumption.
     cbn [app scan tag_ws Z.eqb Pos.eqb orb].
-    rewrite scan_annot_acc by assumption. cbn. reflexivity.
+    rewrite scan_annot_escape. reflexivity.
   - cbn [print_classes flat_map app]. fold (print_classes cs).
     rewrite scan_class_acc by assumption. cbn [app scan tag_ws Z.eqb Pos.eqb orb].
     rewrite <- app_assoc. rewrite IH by assumption. rewrite <- app_assoc. reflexivity.
@@ -175,10 +183,10 @@ Proof.
     rewrite <- !app_assoc.
     rewrite scan_start_acc by assumption. cbn [app].
     destruct cls as [cs|], an as [a|]; try contradiction.
-    + destruct Hca as (Hcs & Ha & Hnorm).
+    + destruct Hca as (Hcs & Hnorm).
       destruct cs as [|c1 cs].
       * cbn [print_classes flat_map app scan tag_ws Z.eqb Pos.eqb orb].
-        rewrite scan_annot_acc by assumption. cbn [app scan Z.eqb Pos.eqb]. rewrite Hnorm. reflexivity.
+        rewrite scan_annot_escape. cbn [app]. rewrite Hnorm. reflexivity.
       * cbn [print_classes flat_map app]. fold (print_classes cs). cbn [scan tag_ws Z.eqb Pos.eqb orb].
         rewrite <- !app_assoc. cbn [app].
         rewrite scan_classes_annot by assumption. rewrite Hnorm. reflexivity.
@@ -242,8 +250,164 @@ Proof. intros ts H. unfold tokenize. apply tok_loop_print; [exact H|lia]. Qed.
 (* non-vacuity: a normal-form list with every token kind *)
 Example nf_example :
   nf_list [TString [97;38;60]; TStart [99] (Some [[114;101;100];[98;103;95;98;108;117;101]]) None; TString [120];
-           TEnd [99]; TStart [118] (Some []) (Some [84;111;109;32;74]); TTs [48;48;58;48;49;46;48;48;48]; TEnd []].
+           TEnd [99]; TStart [118] (Some []) (Some [84;111;109;32;38;32;74]); TTs [48;48;58;48;49;46;48;48;48]; TEnd []].
 Proof.
-  cbn. unfold first_char, name_char, annot_char, class_ok.
+  cbn. unfold first_char, name_char, class_ok.
   repeat (split || (eexists; eexists; split; [reflexivity|]) || constructor || lia || discriminate || reflexivity || vm_compute).
+Qed.
+
+(* ================================================================ strings spelled with character references
+   A string token may be spelled with any mix of literal characters (escaped) and character references `&…;`.
+   An item is such a spelled string or any other token; the tokenizer returns the string's VALUE: literal
+   characters as they are, each reference as html.unescape decodes it. *)
+Inductive piece := PLit (t : text) | PRef (r : cref).
+Definition piece_print (p : piece) : text := match p with PLit t => escape t | PRef r => print_cref r end.
+Definition piece_value (p : piece) : text := match p with PLit t => t | PRef r => unescape (print_cref r) end.
+Definition pieces_print (ps : list piece) : text := flat_map piece_print ps.
+Definition pieces_value (ps : list piece) : text := flat_map piece_value ps.
+(* a reference is `&`, a body without `;`, and `;` *)
+Definition ref_ok (r : cref) : Prop := exists body, print_cref r = 38 :: body ++ [59] /\ Forall (fun c => c <> 59) body.
+Definition piece_ok (p : piece) : Prop := match p with PLit t => t <> [] | PRef r => ref_ok r end.
+
+Inductive item := IStr (ps : list piece) | ITok (t : token).
+Definition item_print (i : item) : text := match i with IStr ps => pieces_print ps | ITok t => print_token t end.
+Definition item_token (i : item) : token := match i with IStr ps => TString (pieces_value ps) | ITok t => t end.
+Definition items_print (l : list item) : text := flat_map item_print l.
+Definition nf_item (i : item) : Prop :=
+  match i with
+  | IStr ps => ps <> [] /\ Forall piece_ok ps /\ pieces_value ps <> []
+  | ITok t => nf_token t /\ is_string t = false
+  end.
+Definition is_istr (i : item) : bool := match i with IStr _ => true | ITok _ => false end.
+Fixpoint nf_items (l : list item) : Prop :=
+  match l with
+  | [] => True
+  | i :: l' => nf_item i /\ nf_items l' /\ match l' with i' :: _ => is_istr i && is_istr i' = false | [] => True end
+  end.
+
+(* the data state passes over an escaped literal / a reference, accumulating its value; `buffer` is whatever the
+   last reference left in it *)
+Lemma scan_data_lit : forall v res buf cls more,
+  exists buf', scan SData res buf cls (escape v ++ more) = scan SData (res ++ v) buf' cls more.
+Proof.
+  induction v as [|c v IH]; intros res buf cls more.
+  - exists buf. cbn [escape flat_map app]. rewrite app_nil_r. reflexivity.
+  - unfold escape. cbn [flat_map]. fold (escape v). unfold escape_char.
+    destruct (c =? 38) eqn:E38; [|destruct (c =? 60) eqn:E60; [|destruct (c =? 62) eqn:E62]].
+    + apply Z.eqb_eq in E38. subst c. cbn [app scan Z.eqb Pos.eqb]. rewrite unescape_amp.
+      destruct (IH (res ++ [38]) [38;97;109;112] cls more) as [b' E]. exists b'. rewrite E, app_cons_assoc. reflexivity.
+    + apply Z.eqb_eq in E60. subst c. cbn [app scan Z.eqb Pos.eqb]. rewrite unescape_lt.
+      destruct (IH (res ++ [60]) [38;108;116] cls more) as [b' E]. exists b'. rewrite E, app_cons_assoc. reflexivity.
+    + apply Z.eqb_eq in E62. subst c. cbn [app scan Z.eqb Pos.eqb]. rewrite unescape_gt.
+      destruct (IH (res ++ [62]) [38;103;116] cls more) as [b' E]. exists b'. rewrite E, app_cons_assoc. reflexivity.
+    + cbn [app scan]. rewrite E38, E60.
+      destruct (IH (res ++ [c]) buf cls more) as [b' E]. exists b'. rewrite E, app_cons_assoc. reflexivity.
+Qed.
+Lemma scan_cref_acc : forall body res buf cls more, Forall (fun c => c <> 59) body ->
+  scan SCref res buf cls (body ++ more) = scan SCref res (buf ++ body) cls more.
+Proof.
+  induction body as [|c body IH]; intros res buf cls more H; [rewrite app_nil_r; reflexivity|].
+  inversion H; subst. cbn [app scan]. replace (c =? 59) with false by lia.
+  rewrite IH by assumption. rewrite app_cons_assoc. reflexivity.
+Qed.
+Lemma scan_data_ref r res buf cls more : ref_ok r ->
+  exists buf', scan SData res buf cls (print_cref r ++ more) = scan SData (res ++ unescape (print_cref r)) buf' cls more.
+Proof.
+  intros (body & E & Hb). rewrite E. exists (38 :: body).
+  cbn [app scan Z.eqb Pos.eqb]. rewrite <- app_assoc. rewrite scan_cref_acc by exact Hb.
+  cbn [app scan Z.eqb Pos.eqb]. reflexivity.
+Qed.
+Lemma scan_data_pieces : forall ps res buf cls more, Forall piece_ok ps ->
+  exists buf', scan SData res buf cls (pieces_print ps ++ more) = scan SData (res ++ pieces_value ps) buf' cls more.
+Proof.
+  induction ps as [|p ps IH]; intros res buf cls more H.
+  - exists buf. cbn. rewrite app_nil_r. reflexivity.
+  - inversion H as [|? ? Hp Hps]; subst. unfold pieces_print, pieces_value. cbn [flat_map].
+    fold (pieces_print ps). fold (pieces_value ps). rewrite <- app_assoc.
+    destruct p as [t|r]; cbn [piece_print piece_value piece_ok] in *.
+    + destruct (scan_data_lit t res buf cls (pieces_print ps ++ more)) as [b1 E1]. rewrite E1.
+      destruct (IH (res ++ t) b1 cls more Hps) as [b2 E2]. exists b2. rewrite E2, app_assoc. reflexivity.
+    + destruct (scan_data_ref r res buf cls (pieces_print ps ++ more) Hp) as [b1 E1]. rewrite E1.
+      destruct (IH (res ++ unescape (print_cref r)) b1 cls more Hps) as [b2 E2]. exists b2. rewrite E2, app_assoc. reflexivity.
+Qed.
+
+Lemma scan_item : forall i rest, nf_item i -> (is_istr i = true -> lt_or_nil rest) ->
+  scan SData [] [] [] (item_print i ++ rest) = (item_token i, rest).
+Proof.
+  intros [ps|t] rest Hnf Hrest; cbn [item_print item_token].
+  - destruct Hnf as (_ & Hps & Hv).
+    destruct (scan_data_pieces ps [] [] [] rest Hps) as [b E]. rewrite E. cbn [app].
+    apply scan_data_end; [apply Hrest; reflexivity|exact Hv].
+  - destruct Hnf as [Hn Hs]. apply scan_token; [exact Hn|]. rewrite Hs. discriminate.
+Qed.
+
+Lemma piece_print_nonempty p : piece_ok p -> exists c r, piece_print p = c :: r.
+Proof.
+  destruct p as [t|r]; cbn [piece_ok piece_print].
+  - intros H. destruct t as [|c t]; [congruence|]. unfold escape. cbn [flat_map]. unfold escape_char.
+    destruct (c =? 38); [|destruct (c =? 60); [|destruct (c =? 62)]]; eexists; eexists; reflexivity.
+  - intros (body & E & _). rewrite E. eexists; eexists; reflexivity.
+Qed.
+Lemma item_print_nonempty i : nf_item i -> exists c r, item_print i = c :: r.
+Proof.
+  destruct i as [ps|t]; cbn [nf_item item_print].
+  - intros (Hne & Hps & _). destruct ps as [|p ps]; [congruence|]. inversion Hps; subst.
+    destruct (piece_print_nonempty p H1) as (c & r & E). unfold pieces_print. cbn [flat_map]. rewrite E. eexists; eexists; reflexivity.
+  - intros [H _]. apply print_token_nonempty. exact H.
+Qed.
+Lemma items_print_head l : nf_items l ->
+  match l with i :: _ => is_istr i = false -> lt_or_nil (items_print l) | [] => True end.
+Proof.
+  destruct l as [|i l]; [trivial|]. intros (Hi & _) Hs. right.
+  destruct i as [ps|t]; [discriminate|]. destruct Hi as [_ Ht]. destruct t; try discriminate; cbn; eexists; reflexivity.
+Qed.
+
+Lemma tok_loop_items : forall l n, nf_items l -> (length (items_print l) <= n)%nat ->
+  tok_loop n (items_print l) = map item_token l.
+Proof.
+  induction l as [|i l IH]; intros n Hnf Hlen.
+  - destruct n; reflexivity.
+  - destruct Hnf as (Hi & Hl & Hadj).
+    unfold items_print in *. cbn [flat_map map] in *. fold (items_print l) in *.
+    destruct (item_print_nonempty i Hi) as (c & r & Hp).
+    destruct n as [|n].
+    + rewrite Hp in Hlen. cbn in Hlen. lia.
+    + cbn [tok_loop].
+      destruct (item_print i ++ items_print l) as [|z w] eqn:E.
+      { rewrite Hp in E. discriminate. }
+      rewrite <- E. rewrite scan_item; [| exact Hi |].
+      * f_equal. apply IH; [exact Hl|].
+        assert (Hw : (length (item_print i ++ items_print l) <= S n)%nat) by (rewrite E; exact Hlen).
+        rewrite app_length, Hp in Hw. cbn in Hw. lia.
+      * intros Hs. destruct l as [|i' l'].
+        -- left. reflexivity.
+        -- rewrite Hs in Hadj. cbn in Hadj.
+           apply (items_print_head (i' :: l') Hl). exact Hadj.
+Qed.
+
+(* the tokenizer returns the VALUE of every string however it is spelled, and every other token as printed *)
+Theorem tokenizer_items : forall l, nf_items l -> tokenize (items_print l) = map item_token l.
+Proof. intros l H. unfold tokenize. apply tok_loop_items; [exact H|lia]. Qed.
+
+(* the references WebVTT allows by name decode to the characters the standard gives them *)
+Lemma webvtt_named_refs :
+  map (fun n => unescape (print_cref (RefNamed n))) [[97;109;112]; [108;116]; [103;116]; [108;114;109]; [114;108;109]; [110;98;115;112]]
+  = [[38]; [60]; [62]; [8206]; [8207]; [160]].
+Proof. vm_compute. reflexivity. Qed.
+Lemma named_ref_ok n : Forall (fun c => c <> 59) n -> ref_ok (RefNamed n).
+Proof. intros H. exists n. split; [reflexivity|exact H]. Qed.
+
+Example items_example :
+  nf_items [IStr [PLit [97]; PRef (RefNamed [108;114;109]); PRef (RefDec 233); PRef (RefHex 128512); PLit [38;60]];
+            ITok (TStart [98] None None); IStr [PRef (RefNamed [110;98;115;112])]; ITok (TEnd [98])].
+Proof.
+  assert (R1 : ref_ok (RefNamed [108;114;109])) by (apply named_ref_ok; repeat constructor; lia).
+  assert (R2 : ref_ok (RefDec 233)) by (exists [35;50;51;51]; split; [reflexivity|repeat constructor; lia]).
+  assert (R3 : ref_ok (RefHex 128512)) by (exists [35;120;49;102;54;48;48]; split; [reflexivity|repeat constructor; lia]).
+  assert (R4 : ref_ok (RefNamed [110;98;115;112])) by (apply named_ref_ok; repeat constructor; lia).
+  cbn [nf_items nf_item is_istr andb is_string].
+  repeat split; try discriminate; try reflexivity; try (repeat constructor; assumption || discriminate).
+  all: try (intros H; vm_compute in H; discriminate).
+  all: try (exists 98, []; unfold first_char, name_char; repeat split; try lia; constructor).
+  all: try (repeat constructor; lia).
 Qed.
